@@ -2,6 +2,7 @@ package c06
 
 import (
 	"fmt"
+	"math/big"
 	"math/rand"
 	"time"
 
@@ -50,6 +51,23 @@ func prefillBallast(w *txgen.World, n uint64) {
 	}
 }
 
+// crowdN accounts with code (STOP), one storage slot and a balance of 26 bytes: about 96 bytes each in the snapshot. A
+// sprayer call (planned every 7-11 blocks in the first part of a long chain) pays each of them 1 wei, so the layer of
+// that block carries some 220 KB of account data: merging it into the disk layer takes three database batches
+// (diffToDisk flushes its batch whenever the account values in it exceed 100 KB).
+const crowdN = 2300
+
+func prefillCrowd(w *txgen.World) {
+	w.Accounts[sprayAddr] = &txgen.Account{Balance: big.NewInt(1000000000000), Nonce: 1, Code: sprayerCode()}
+	for i := uint64(0); i < crowdN; i++ {
+		bal := new(big.Int).Lsh(big.NewInt(1), 200)
+		w.Accounts[crowdAddr(i)] = &txgen.Account{Balance: bal.Add(bal, new(big.Int).SetUint64(i)), Nonce: 1, Code: []byte{0},
+			Storage: map[common.Hash]common.Hash{slotKey(0): slotKey(1)}}
+	}
+}
+
+func sprayData(n, from uint64) []byte { return append(word(n), word(from)...) }
+
 type longEvent struct {
 	From  int
 	Churn []churnRec
@@ -65,6 +83,8 @@ type longPlan struct {
 	Restart      map[int][]int          `json:"restart_replica_before_heights"`
 	Reconfig     map[int]map[int]string `json:"reopen_replica_with_configuration,omitempty"` // replica -> height -> configuration it is reopened with (an operator changing the flags)
 	Events       int                    `json:"planned_events"`
+	Spray        []int                  `json:"sprayer_call_at_heights,omitempty"` // the sprayer pays every crowd account 1 wei
+	Crash        *crashPlan             `json:"crash_restart_replica,omitempty"`   // crash.go
 	events       map[int][]longEvent
 }
 
@@ -88,6 +108,11 @@ func (p *longPlan) specsAt(h int, nEOA int) []*txgen.TxSpec {
 			gas = p.BallastN*21000 + 200000
 		}
 		out = append(out, directedSpec(0, ballastAddr, ballastData(p.BallastN, 0, uint64(h)), gas, 0, "ballast"))
+	}
+	for _, s := range p.Spray {
+		if s == h {
+			out = append(out, directedSpec(1%nEOA, sprayAddr, sprayData(crowdN, 0), crowdN*12000+100000, 0, "spray"))
+		}
 	}
 	for _, e := range p.events[h] {
 		from := e.From % nEOA
@@ -251,6 +276,17 @@ func longCase(c *core.Case) {
 		}
 	}
 	o.Replicas = []repCfg{cfgByName(first[r.Intn(len(first))]), cfgByName("snapshots-off+small-dirty-cache"), cfgByName("default"), cfgByName(fourth[r.Intn(len(fourth))])}
+	// replica 4: the recorded replica crash images are taken of (crash.go), and the sprayer calls that make disk-layer
+	// merges larger than one database batch (drawn from a stream of their own)
+	rc := c.Run.Rng("long-crash", c.I)
+	for s := 3 + rc.Intn(5); s <= plan.Heights-141; s += 7 + rc.Intn(5) {
+		plan.Spray = append(plan.Spray, s)
+	}
+	plan.Crash = drawCrashPlan(rc, c.Run.Quick(), c.I, len(o.Replicas))
+	o.Replicas = append(o.Replicas, crashCfg(plan.Crash.Variant))
+	if plan.Crash.Variant == "node-defaults" {
+		plan.Restart[plan.Crash.Replica] = []int{6 + rc.Intn(5)} // one early clean stop: the only tries this replica ever writes
+	}
 	if runScenario(c, r, o, "long") != nil {
 		c.Run.Count("long_chains", 1)
 	}
